@@ -6,7 +6,7 @@ namespace SV.Generated.C13Shared
     touches the object, lock held around the guarded block) -/
 def lazyMembers : List (String × String × String × String × Bool × String) := [
   ("specs/openapi/schemas.py", "BaseOpenAPISchema.resolver", "_resolver", "hasattr-guard", true, ""),
-  ("specs/openapi/schemas.py", "BaseOpenAPISchema.rewritten_components", "_rewritten_components", "hasattr-guard", false, ""),
+  ("specs/openapi/schemas.py", "BaseOpenAPISchema.rewritten_components", "_rewritten_components", "hasattr-guard", true, ""),
   ("schemas.py", "BaseSchema.statistic", "statistic", "cached_property", true, ""),
   ("schemas.py", "APIOperation.__post_init__", "label", "hasattr-guard", true, "")
 ]
